@@ -114,6 +114,15 @@ pub fn gen_atom(r: &mut Rng, cfg: &GenCfg, depth: usize) -> Re {
 
 pub fn gen_rep(r: &mut Rng, cfg: &GenCfg, depth: usize) -> Re {
     let a = gen_atom(r, cfg, depth);
+    // a counted repetition directly inside a counted repetition with the same bounds (decided
+    // without drawing from the generator)
+    if let Re::Group(g) = &a {
+        if let Re::Rep(_, m, b) = &**g {
+            if (*m as usize + depth) % 2 == 0 {
+                return Re::Rep(Box::new(a.clone()), *m, b.clone());
+            }
+        }
+    }
     match r.below(100) {
         0..=54 => a,
         55..=64 => Re::Star(Box::new(a)),
